@@ -2,7 +2,7 @@
 import itertools
 
 NAMES, VALUES = ["a", "b"], ["1", "2"]
-DOMAINS = [None, "x.y", "X.Y", ".x.y", "y", "a.x.y", "X.y"]
+DOMAINS = [None, "x.y", "X.Y", ".x.y", ".X.Y", ".x.Y", "y", "a.x.y", "X.y"]
 HOSTS = ["x.y", "a.x.y", "ax.y", "xx.y", "y", "x.y.z", "X.Y", "A.x.Y", "b.a.x.y", ""]
 
 
